@@ -180,6 +180,17 @@ var properties = map[string]*Property{
 			"Interp.EvalReader / ReadParseEvalPrint, BufReadline / TtyReadline (assumed: every line handed to the reader ends with a newline unless the input ends)",
 		},
 	},
+	"C27": {
+		ID:    "C27",
+		Title: "Reported source positions are exact across chunks and line offsets",
+		Units: []Unit{
+			{Kind: "funcs", Pkg: "go/etoken", Funcs: []string{"(*File).PositionFor", "(*File).Position", "(*File).Source", "(*FileSet).AddFile", "(*FileSet).File", "(*FileSet).PositionFor"}},
+		},
+		NotCovered: []string{
+			"the first sentence: that the line counter advanced per chunk (Output.IncLine, Interp.Read, Interp.afterEval) gives each chunk the starting line of its first line in the original input, and that errors, panics and debugger stops use these positions: histories of reads",
+			"token.File.PositionFor and token.FileSet.File of the standard library are taken as pure functions; SetSourceForContent (splitting the text into lines)",
+		},
+	},
 	"C28": {
 		ID:    "C28",
 		Title: "Type identity is a total equivalence consistent with type hashing and type maps",
